@@ -7,7 +7,7 @@
    The log holds many traces (Reset record = configuration q, i, cap, ocap); every trace is judged from its own
    initial state by the total, deterministic step function below; the names of the violated clauses (with the
    index of the first offending record) are collected in `bad` and reported on a VERDICT line when the trace ends.
-   Clause names starting with C04 / C12 are verdicts about the property; X12_* is conformance-level only.
+   Clause names starting with C04 / C12 are verdicts about the property.
 
    Emission instants: e[j] = virtual time of the first observation with received + len(Output()) >= j.  The harness
    observes after every single clock step, the discipline only acts at harness actions and at timer expiry, so on a
@@ -27,7 +27,9 @@
         sched        everything available up-front (nothing is written after a clock step that was taken with an
                      empty input) and a ready consumer: element j (0-based) is emitted at exactly (j div Q)*I
         close_time   ... and the output closes at exactly max(t_close_input, (N div Q)*I)
-        close_pause  fewer than Q elements in total and a ready consumer: closes at the instant the input closes *)
+        close_pause  fewer than Q elements in total and a ready consumer: closes at the instant the input closes
+        rate         "does not throttle below the configured rate", for every arrival pattern: with a ready consumer element j > Q
+                     leaves no later than max(it was written, element j-1 left, element j-Q left + Interval) *)
 EXTENDS Integers, Sequences, FiniteSets, TLC, Json
 
 TraceLog == ndJsonDeserialize("limit_trace.ndjson")
@@ -90,7 +92,7 @@ Step ==
          b11 == Add(b10, firstClosed /\ rdy1 /\ nW1 < cq /\ t # tc1, "C12_close_pause", l + 1)
          b12 == Add(b11, fresh /\ rdy1 /\ j0 > cq /\ j0 <= nW1
                          /\ t > Max(Max(wt1[j0], prevE), em[j0 - cq] + ci),
-                    "X12_general", l + 1)
+                    "C12_rate", l + 1)
          b13 == Add(b12, seenClosed /\ ~e.closed, "C12_reopened", l + 1)
      IN /\ l' = l + 1
         /\ nW' = nW1 /\ wt' = wt1 /\ rc' = rc1 /\ rt' = rt1 /\ closedIn' = cin1 /\ tc' = tc1
@@ -111,6 +113,6 @@ MSpec == MInit /\ [][MNext]_mvars
 \* the properties as state predicates (the check reads the VERDICT lines; these are for interactive use with TLC)
 C04_Holds == \A x \in bad : x[1] \notin {"C04_cum", "C04_window", "C04_recv_ready", "C04_recv_slack"}
 C12_Holds == \A x \in bad : x[1] \notin {"C12_order", "C12_closed_early", "C12_deadline", "C12_pause", "C12_sched",
-                                         "C12_close_time", "C12_close_pause", "C12_reopened"}
+                                         "C12_close_time", "C12_close_pause", "C12_reopened", "C12_rate"}
 MonTotal == l <= NRec
 =============================================================================
